@@ -21,6 +21,7 @@ type Case struct {
 	Bsize int    `json:"bsize,omitempty"`
 	Tick  bool   `json:"tick,omitempty"`
 	Fmt   string `json:"fmt,omitempty"`   // ljh22 | ljh3 | off
+	Warm  int    `json:"warm,omitempty"`  // pubflush: records written, flushed and closed through the same publisher in an earlier file
 	N     int    `json:"n,omitempty"`     // samples per record (number of bases for off)
 	Hdr   int    `json:"hdr,omitempty"`   // publish/off: samples per projector (size of the OFF header payload)
 	Align bool   `json:"align,omitempty"` // pipe: raise N until the consumer stalls holding the first bytes of a record
@@ -256,6 +257,11 @@ func genPubFlush(r *lib.Rng) Case {
 	}
 	if r.Chance(1, 2) {
 		c.Ops = append(c.Ops, GOp{Op: "B", N: r.Range(1, 20)})
+	}
+	if r.Chance(1, 2) {
+		// the publisher has written, flushed and closed an earlier file, with as many records as the first batch
+		// of this one (or one more): bookkeeping left over from the earlier file must not matter (seed C07-18)
+		c.Warm = c.Ops[0].N + r.Intn(2)*r.Intn(2)
 	}
 	return c
 }
